@@ -102,6 +102,7 @@ diffs)  # the recorded patches selftest/C17/*.diff (deep chains, type-level Init
       tparam-positional-skips-valuehash) pat='pos-named-differ|tparam-pos-named' ;;
       tparam-extension-equals-ignores-bindings) pat='equality-wrong' ;;
       tparam-binds-on-empty-values) pat='equality-wrong|pos-named-differ' ;;
+      implements-ignores-function-type|implements-accepts-attribute-member) pat='ifacex-instance' ;;
       *) pat='' ;;
     esac
     run "mutant $(basename "$d" .diff)" 1 "$pat"
